@@ -84,8 +84,8 @@ RECURSIVE Visited(_)
 Visited(s) == IF Len(s) = 0 THEN <<>>
               ELSE (IF Head(s).td THEN <<>> ELSE <<Head(s)>> \o Visited(Head(s).b)) \o Visited(Tail(s))
 
-RECURSIVE Ids(_)
-Ids(xs) == IF Len(xs) = 0 THEN <<>> ELSE <<Head(xs).o>> \o Ids(Tail(xs))
+\* (not recursive: occurrence lists of parsed routines have hundreds of entries; the elements are cheap)
+Ids(xs) == [i \in 1..Len(xs) |-> xs[i].o]
 Count(s, v) == Cardinality({i \in 1..Len(s) : s[i] = v})
 SameBag(a, b) == Len(a) = Len(b) /\ \A v \in SeqSet(a) \cup SeqSet(b) : Count(a, v) = Count(b, v)
 
@@ -123,4 +123,33 @@ QueryOK(T, q) ==
                        IF q.pairs THEN PairsOK(T, Q, q.prs, q.unique)
                        ELSE IF q.unique THEN UniqueOK(TreeOcc(T, Q), q.ids)
                        ELSE PlainOK(TreeOcc(T, Q), q.ids)
+
+(***************************************************************************)
+(* Diagnosis of a rejected query (part of the verdict; kept short: TLC     *)
+(* wraps long tuples).  R:<exception>  N: wrong node list                  *)
+(* M:<node class> occurrences in a node of that class are missing          *)
+(* P:<node class> the (node, expressions) pair of such a node is wrong     *)
+(* X / P?: results that are no occurrences / pairs for unexpected nodes    *)
+(***************************************************************************)
+MinOf(S) == CHOOSE i \in S : \A j \in S : i <= j
+ClassOf(n) == n.mro[1]
+Diag(T, q) ==
+  IF q.exc # "" THEN "R:" \o q.exc
+  ELSE IF q.f # "Expr" THEN "N"
+  ELSE LET Q   == SeqSet(q.classes)
+           vis == Visited(T)
+           occ == TreeOcc(T, Q)
+       IN
+       IF q.pairs THEN
+          LET want == {i \in 1..Len(vis) : Len(OwnOcc(vis[i], Q)) > 0}
+              bad  == {i \in want : ~\E r \in 1..Len(q.prs) :
+                          /\ q.prs[r].n = vis[i].id
+                          /\ \A r2 \in 1..Len(q.prs) : q.prs[r2].n = vis[i].id => r2 = r
+                          /\ IF q.unique THEN UniqueOK(OwnOcc(vis[i], Q), q.prs[r].xs) ELSE PlainOK(OwnOcc(vis[i], Q), q.prs[r].xs)}
+          IN  IF bad # {} THEN "P:" \o ClassOf(vis[MinOf(bad)]) ELSE "P?"
+       ELSE
+          LET bad == IF q.unique
+                     THEN {i \in 1..Len(vis) : \E x \in SeqSet(OwnOcc(vis[i], Q)) : x.key \notin {KeyOfId(occ, q.ids[r]) : r \in 1..Len(q.ids)}}
+                     ELSE {i \in 1..Len(vis) : \E x \in SeqSet(OwnOcc(vis[i], Q)) : Count(q.ids, x.o) < Count(Ids(occ), x.o)}
+          IN  IF bad # {} THEN "M:" \o ClassOf(vis[MinOf(bad)]) ELSE "X"
 =============================================================================
